@@ -143,7 +143,7 @@ func c10GenPhase(r *Rng, nmsg int) c10Phase {
 	}
 	confSent := 0
 	qmethods := []string{"textDocument/hover", "textDocument/definition", "textDocument/references", "textDocument/rename", "textDocument/documentSymbol",
-		"workspace/symbol", "textDocument/completion", "textDocument/documentHighlight", "luahelper/getVarColor", "textDocument/signatureHelp"}
+		"workspace/symbol", "textDocument/completion", "textDocument/documentHighlight", "luahelper/getVarColor", "textDocument/signatureHelp", "textDocument/documentColor"}
 	// fixed probe positions inside the version texts (line, char)
 	probes := [][2]int{{0, 8}, {1, 10}, {2, 10}, {2, 26}, {3, 10}, {5, 6}, {5, 13}, {6, 2}, {7, 8}, {7, 22}, {7, 33}}
 	for len(ph.Msgs) < nmsg {
@@ -211,7 +211,7 @@ func c10GenPhase(r *Rng, nmsg int) c10Phase {
 		var params map[string]interface{}
 		pr := probes[r.Intn(len(probes))]
 		switch m {
-		case "textDocument/documentSymbol":
+		case "textDocument/documentSymbol", "textDocument/documentColor":
 			params = map[string]interface{}{"textDocument": map[string]interface{}{"uri": uri(rel)}}
 		case "luahelper/getVarColor":
 			params = map[string]interface{}{"uri": uri(rel)}
@@ -665,7 +665,7 @@ func runC10(c *Ctx) {
 	c.Set("race_report_classes", raceClasses)
 	c.Set("overlapping_query_x_mutator_pairs_observed", overlap)
 	c.Set("distinct_overlap_kinds", len(overlap))
-	c.Finish("message floods (queries of 10 kinds on 3 open files mixed with didChange/didSave/didOpen/didClose/watched (single file, and batches of 3-10 files rewritten on disk)/configuration mutators, nothing awaited) "+
+	c.Finish("message floods (queries of 11 kinds on 3 open files mixed with didChange/didSave/didOpen/didClose/watched (single file, and batches of 3-10 files rewritten on disk)/configuration mutators, nothing awaited) "+
 		"against the -race server, each phase repeated; race detector reports classified by handler pair; the client-side history (call = send, return = response, "+
 		"notifications closed by the dispatch barrier) is checked with porcupine against the sequential replay of the same mutators. distinct_nontrivial = floods whose "+
 		"history was accepted by porcupine with at least one query overlapping a mutator", 3)
